@@ -19,6 +19,8 @@ import (
 
 func init() { register("C07", genC07) }
 
+var c07SwapRE = regexp.MustCompile(`^(\w+), (\w+) = (\w+), (\w+)$`)
+
 var c07CombinerRE = regexp.MustCompile(`dag\.NewBinaryExpr\("([^"]*)", f1\.Expr, f2\.Expr\)`)
 
 type swClause struct {
@@ -369,6 +371,60 @@ func genC07(repo string) (string, error) {
 		return "", fmt.Errorf("%s: parallelizeSeqScan body not recognised: `%s`", fpar.pos(fd), got)
 	}
 	fmt.Fprintf(&b, "def parallelizeSeqScanPinned : Bool := true\n")
+
+	// ---- kernel: what a dag.Join hands to join.New (the right-join swap) ----------------------------------
+	fk, err := parseFile(repo, "compiler/kernel/op.go")
+	if err != nil {
+		return "", err
+	}
+	fd, err = fk.funcDecl("Builder", "compile")
+	if err != nil {
+		return "", err
+	}
+	styleSw := firstSwitch(fd.Body, "o.Style")
+	if styleSw == nil {
+		return "", fmt.Errorf("%s: Builder.compile: no `switch o.Style`", fk.pos(fd))
+	}
+	var styleRows []string
+	var rightSwaps []string
+	for _, st := range styleSw.Body.List {
+		cc := st.(*ast.CaseClause)
+		if cc.List == nil {
+			continue // default: unknown kind of join → error
+		}
+		for _, e := range cc.List {
+			name, ok := strLit(e)
+			if !ok {
+				return "", fmt.Errorf("%s: Builder.compile: non-literal join style", fk.pos(e))
+			}
+			body := renderStmtsRaw(fk, cc.Body)
+			styleRows = append(styleRows, fmt.Sprintf("(%s, %s)", leanStr(name), leanStr(strings.Join(body, " ; "))))
+			if name == "right" {
+				rightSwaps = body
+			}
+		}
+	}
+	for _, sw := range rightSwaps {
+		if !c07SwapRE.MatchString(sw) {
+			return "", fmt.Errorf("%s: Builder.compile: right-join clause statement not a swap: `%s`", fk.pos(styleSw), sw)
+		}
+	}
+	fmt.Fprintf(&b, "def joinStyles : List (String × String) :=\n  [%s]\n", strings.Join(styleRows, ", "))
+	fmt.Fprintf(&b, "def rightJoinSwaps : List String := %s\n", leanStrList(rightSwaps))
+	// the call: join.New(b.rctx, anti, inner, leftParent, rightParent, leftKey, rightKey, leftDir, rightDir, lhs, rhs, b.resetters)
+	var joinCall string
+	ast.Inspect(fd.Body, func(n ast.Node) bool {
+		if ce, ok := n.(*ast.CallExpr); ok {
+			if name, ok := selName(ce.Fun); ok && name == "join.New" {
+				joinCall = renderExpr(fk, ce)
+			}
+		}
+		return true
+	})
+	if joinCall != "join.New(b.rctx, anti, inner, leftParent, rightParent, leftKey, rightKey, leftDir, rightDir, lhs, rhs, b.resetters)" {
+		return "", fmt.Errorf("%s: Builder.compile: join.New call not recognised: `%s`", fk.pos(fd), joinCall)
+	}
+	fmt.Fprintf(&b, "def joinNewArgs : List String := %s\n", leanStrList([]string{"leftParent", "rightParent", "leftKey", "rightKey", "leftDir", "rightDir"}))
 
 	// ---- demand ------------------------------------------------------------------------------------------
 	fd, err = fdem.funcDecl("", "inferDemandSeqOutWith")
